@@ -46,6 +46,14 @@ def x86Fuel : Nat := 4
 def x86Store (dest : BitVec 32) : UInt8 × UInt8 × UInt8 × UInt8 :=
   (u8 dest, u8 (dest >>> 8), u8 (dest >>> 16), u8 (~~~ (((dest >>> 24) &&& 1#32) - 1#32)))
 
+/-- the 32-bit operand as the C code assembles it from `buffer[pos+1 .. pos+4]` -/
+def x86Src (b1 b2 b3 b4 : UInt8) : BitVec 32 :=
+  (u32 b4 <<< 24) ||| (u32 b3 <<< 16) ||| (u32 b2 <<< 8) ||| u32 b1
+
+/-- conversion of one operand: the new bytes `pos+1 .. pos+4` -/
+def x86Conv (enc : Bool) (pc5 : BitVec 32) (mask : BitVec 32) (b1 b2 b3 b4 : UInt8) : UInt8 × UInt8 × UInt8 × UInt8 :=
+  x86Store (x86Loop enc pc5 mask x86Fuel (x86Src b1 b2 b3 b4))
+
 /-- `prev_mask` after the shift by `offset = pc - prev_pos`. -/
 def x86NewMask (st : X86State) (pc : BitVec 32) : BitVec 32 :=
   let offset := pc - st.prevPos
@@ -64,9 +72,7 @@ def x86Go (enc : Bool) : BitVec 32 → X86State → List UInt8 → List UInt8 ×
     else
       let mask := x86NewMask st pc
       if x86Convertible b4 mask then
-        let src := (u32 b4 <<< 24) ||| (u32 b3 <<< 16) ||| (u32 b2 <<< 8) ||| u32 b1
-        let dest := x86Loop enc (pc + 5#32) mask x86Fuel src
-        let (o1, o2, o3, o4) := x86Store dest
+        let (o1, o2, o3, o4) := x86Conv enc (pc + 5#32) mask b1 b2 b3 b4
         let (r, n, st') := x86Go enc (pc + 5#32) ⟨0#32, pc⟩ rest
         (b0 :: o1 :: o2 :: o3 :: o4 :: r, n + 5, st')
       else
